@@ -152,6 +152,9 @@ func (m *Model) key() string {
 	}
 	sort.Strings(rk)
 	b.WriteString(strings.Join(rk, ";"))
+	for _, inc := range m.Incs {
+		fmt.Fprintf(&b, "|%d,%d,%d,%d,%d", inc.Ino, inc.Wd, inc.StartCall, inc.EndCall, inc.EndStep)
+	}
 	return b.String()
 }
 
@@ -269,9 +272,9 @@ func nativeBits(ops uint32) uint32 {
 // Feed applies one kernel record (in the order the reader received them) and
 // returns the events the Watcher must deliver for it.
 func (m *Model) Feed(r *sinot.Record) []MEvent {
-	if m.Closed {
-		return nil
-	}
+	// A closed Watcher may go on delivering what its reader had in hand until
+	// the channels are closed (the search treats those events as droppable), so
+	// translation continues after Close.
 	if r.Mask&unix.IN_Q_OVERFLOW != 0 {
 		return nil // reported on Errors; counted separately
 	}
@@ -379,7 +382,6 @@ func (m *Model) Apply(c *APICall, closeOverlap bool) ApplyResult {
 				m.Incs[i].EndCall = c.Idx
 			}
 		}
-		m.W = nil
 		return okRes()
 	case OpWatchList:
 		if c.Ret < 0 {
@@ -391,16 +393,25 @@ func (m *Model) Apply(c *APICall, closeOverlap bool) ApplyResult {
 			}
 			return okRes()
 		}
-		var want []string
+		var want, all []string
 		for _, w := range m.W {
 			if !w.Recurse || w.Root {
 				want = append(want, w.Spelling)
 			}
+			all = append(all, w.Spelling)
 		}
 		sort.Strings(want)
-		if strings.Join(want, "\x00") != strings.Join(c.List, "\x00") || len(want) != len(c.List) {
-			return bad("WatchList = %q, want %q", c.List, want)
+		sort.Strings(all)
+		got := strings.Join(c.List, "\x00")
+		if got == strings.Join(want, "\x00") && len(want) == len(c.List) {
+			return okRes()
 		}
+		// with recursive watches the documentation does not say whether the
+		// directories below a root are listed: both readings are accepted
+		if m.Recurse && got == strings.Join(all, "\x00") && len(all) == len(c.List) {
+			return ApplyResult{OK: true, Relax: "watchlist-lists-recursive-subdirectories"}
+		}
+		return bad("WatchList = %q, want %q", c.List, want)
 		return okRes()
 	case OpRemove:
 		if m.Closed {
@@ -494,10 +505,20 @@ func (m *Model) applyAdd(c *APICall, closeOverlap bool) ApplyResult {
 		}
 	}
 	resolvable := c.ResErrBefore == "" || c.InoAfter != 0
+	naturalFail := false
+	for _, sc := range c.Calls {
+		if sc.Kind == "add" && cleanPath(sc.Path) == p {
+			if sc.Errno == 0 {
+				resolvable = true // the kernel resolved it in the step of the syscall
+			} else if !sc.Forced {
+				naturalFail = true // the kernel itself refused this very path
+			}
+		}
+	}
 	if c.Ret >= 0 && c.Class != "" {
 		// failed Add: must leave the set untouched; legitimate if the path did
 		// not resolve (before or after), a fault was injected, or Close overlaps
-		if !forced && c.ResErrBefore == "" && c.InoAfter != 0 && !closeOverlap {
+		if !forced && !naturalFail && c.ResErrBefore == "" && c.InoAfter != 0 && !closeOverlap {
 			if c.Rec && !c.DirBefore {
 				return okRes()
 			}
@@ -518,11 +539,13 @@ func (m *Model) applyAdd(c *APICall, closeOverlap bool) ApplyResult {
 	if c.Rec && m.Recurse {
 		return m.applyAddRecursive(c, p, ops, adds)
 	}
-	// the inode the kernel bound: kernel truth from the observed add_watch
+	// the inode the kernel bound: kernel truth from the observed add_watch on
+	// the path the caller gave (its resolution in the step of the syscall is,
+	// by definition, the filesystem state at the linearisation point)
 	var ino uint64
 	var wd int32 = -1
 	for _, a := range adds {
-		if a.Inode != 0 && (a.Inode == c.InoBefore || a.Inode == c.InoAfter) {
+		if a.Inode != 0 && cleanPath(a.Path) == p {
 			ino, wd = a.Inode, int32(a.Wd)
 		}
 	}
